@@ -56,6 +56,9 @@ CHECKS["C16"] = ("respondent-level column proportion / unconditional row share w
 CHECKS["C17"] = ("statement's fraction cascade re-implemented + defining relation estimates = population x fraction x (table | within-date | 1) proportion, MoE from matching std-err; metamorphic population scaling (Hypothesis)",
     "Generated-input search over all shapes of the filter block (absent, old style, new style, zeros, documented nulls), population values incl. None/0/fractional, categorical-date on rows / columns / neither / strand, with subtotals and differences. Two crashes found and fixed (categorical-date strand with a difference; two differences).",
     "Proportions / std-errs of the same run serve as the population proportion (C03/C11 tie them to respondents); both-dimensions-categorical-date only fraction + linearity.", "6 C17")
+CHECKS["C20"] = ("four-line trailing-mean specification vs smoothed outputs; bounded exhaustive enumeration of (L, window, rows, function, date?, value pattern) + Hypothesis with display transforms on the date dimension",
+    "Exhaustive over L<=8, window in {None,-1,0..L+2}, 0..3 rows, both function spellings, categorical-date or not, six value patterns incl. NaN/0 (through smoothed_means of slices and strands) plus random surveys for smoothed column proportions / percentages / index / means and the smoothed scale mean, with row subtotals and hide / explicit order on the date dimension. One defect fixed (window 0).",
+    "Subtotal columns on the date dimension are not periods and are not judged.", "6 C20")
 NOT_BUILT = {}
 
 def main():
